@@ -56,6 +56,8 @@ pub struct Pending {
 
 #[derive(Clone, Debug)]
 pub struct CCfg {
+    /// the list passed to Server::new when it differs from `tags` (order, repeats); empty = use tags
+    pub registration: Vec<u8>,
     pub n_servers: usize,
     pub n_clients: usize,
     pub tags: Vec<u8>,
@@ -149,7 +151,8 @@ impl WorldC {
             if s == 0 || !cfg.replicate {
                 let kid = w.next_key_id;
                 w.next_key_id += 1;
-                let (server, model) = Self::new_server(ctx, node, &cfg.tags, kid)?;
+                let reg = if cfg.registration.is_empty() { cfg.tags.clone() } else { cfg.registration.clone() };
+                let (server, model) = Self::new_server(ctx, node, &reg, kid)?;
                 w.servers.push(ServerNode { node, server, model, snapshot: None, epoch_idx: 0, is_primary: s == 0 });
             } else {
                 // a replica starts as an import of the primary's state
